@@ -180,6 +180,28 @@ pub fn check(cx: &Cx, rep: &mut Report) {
                         }
                     }
                 }
+                // timer ticks are handler invocations like any other, whichever lane delivered them (an `interval` tick
+                // is force-sent, the others wait for room): the same limit applies
+                let w = decl.tick_work;
+                for inv in invs.iter().filter(|i| i.mk == Mk::Tick) {
+                    if w < t {
+                        rep.premise("C11.R1.tick_below_limit_completes");
+                        if inv.out.is_none() && inv.abandoned.map(|a| ix.phase("end").map(|e| a.0 < e).unwrap_or(true)).unwrap_or(false) {
+                            rep.fail(P, "R1", "tick_abandoned_below_limit", format!("tick {} needs {w} < timeout {t} but was abandoned at {:?}", inv.msg, inv.abandoned), vec![inv.i]);
+                        }
+                    } else if w > t {
+                        rep.premise("C11.R2.tick_above_limit_abandoned");
+                        match (inv.out, inv.abandoned) {
+                            (Some((s, _, _, _)), _) => rep.fail(P, "R2", "tick_completed_above_limit", format!("tick {} needs {w} > timeout {t} but its handler completed at #{s}", inv.msg), vec![inv.i, s]),
+                            (None, Some((s, vt))) => {
+                                if vt != inv.it + t_ns && ix.phase("end").map(|e| s < e).unwrap_or(true) {
+                                    rep.fail(P, "R2", "tick_abandoned_at_wrong_time", format!("tick {} entered at t={} with timeout {t}: abandoned at t={vt}, expected t={}", inv.msg, inv.it, inv.it + t_ns), vec![inv.i, s]);
+                                }
+                            }
+                            (None, None) => {}
+                        }
+                    }
+                }
                 let any_abandon = invs.iter().filter_map(|i| i.abandoned).min();
                 if let Some((s, _)) = any_abandon {
                     if decl.fail_on_timeout {
